@@ -198,12 +198,37 @@ func (m *c07Monitor) checkOne(s *snap, at *frame) bool {
 	if at != nil {
 		f.mutator = at.e
 		for _, cr := range at.childReturns {
-			if reachable(cr, s.live) {
+			if reachable(cr, s.live) || m.changedWithin(cr) {
+				// the changed object is what the mutator's own operand returned, an element of it, or (a list
+				// from further inside that) shares a node with it which now reads differently
 				f.relation = "operand-result"
 			}
 		}
 	}
 	m.found = f
+	return false
+}
+
+// changedWithin: does the value root, or one of the elements of the list root, now read differently from its snapshot?
+func (m *c07Monitor) changedWithin(root parsley.Node) bool {
+	differs := func(n parsley.Node) bool {
+		k, ok := identity(n)
+		if !ok {
+			return false
+		}
+		i, seen := m.index[k]
+		return seen && renderFull(m.snaps[i].live) != m.snaps[i].full
+	}
+	if differs(root) {
+		return true
+	}
+	if l, isList := root.(ast.NodeList); isList {
+		for _, el := range l {
+			if differs(el) {
+				return true
+			}
+		}
+	}
 	return false
 }
 
